@@ -24,12 +24,13 @@ func TestVerifC18Client(t *testing.T) {
 		t.Skip("VERIF_OUT not set")
 	}
 	rep := &simReport{Extra: map[string]any{}}
+	simOnStall("c18c_result.json", rep)
 	defer simWriteReport("c18c_result.json", rep)
 	for _, admin := range []bool{false, true} {
 		for _, rt := range []time.Duration{150 * time.Millisecond, 2 * time.Second, 90 * time.Second} {
 			for _, lookup := range []time.Duration{30 * time.Second, 7 * time.Second} {
 				name := fmt.Sprintf("admin=%v/read-timeout=%v/lookup-timeout=%v", admin, rt, lookup)
-				synctest.Test(t, func(t *testing.T) {
+				verifsim.Bubble(t, func(t *testing.T) {
 					tr := &verifsim.Trace{}
 					cl := verifsim.NewCluster(tr)
 					for _, a := range []string{"ms", "rs1", "master"} {
